@@ -35,6 +35,9 @@ POOL = [
     ('"abc"', "str"), ("sd", "str"), ("sm", "str"), ('"BD"', "str"), ('"\u3042\u3044"', "str"), ('"\u0142"', "str"), ('"\u00e9"', "str"), ('"e\u0301"', "str"),
     ('MyStr.new("a")', "mystr"), ('MyStr.new("b")', "mystr"),
     ("[]", "arr"), ("[1]", "arr"), ("[1, 2]", "arr"), ("[[1], [2]]", "arr"), ('["a", nil]', "arr"), ("[1.5]", "arr"),
+    # containers whose elements are == across kinds (1 == true, 0 == false, 2 == 2.0?): symmetry must survive the nesting
+    ("[true]", "arr"), ("[0]", "arr"), ("[false]", "arr"), ("[[0, 2]]", "arr"), ("[[false, 2]]", "arr"), ("[2.0]", "arr"), ("[2]", "arr"), ('["1"]', "arr"),
+    ("{a: true}", "obj"), ("{a: 1.0}", "obj"), ("%{1: true}", "map"), ("%{1: 1}", "map"), ("%{true: 2}", "map"),
     ("MyArr.new([1])", "myarr"),
     ("{}", "obj"), ("{a: 1}", "obj"), ("{a: 1, b: [2]}", "obj"), ("{a: {b: 1}}", "obj"), ("o1", "obj"), ("c1", "obj"),
     ("%{}", "map"), ("%{1: 2}", "map"), ('%{"a": [1], 2: nil}', "map"), ("%{[1]: 1}", "map"), ("%{[1]: 1, {a: 1}: 2}", "map"),
